@@ -24,6 +24,9 @@
 //                       through a copy of the storage object,
 //          "mode":"seq"|"mt", "grain":"call"|"atomic"|"alloc", "kill":"finish"|"destroy",
 //          "init":<abstract size>, "nslots":n,
+//          "boff":0|8   buffer, placement: the address (mod 16) at which the memory of the caller begins: the first element
+//                       of the vector (its allocator puts every block of the vector there; the bytes in front of it belong
+//                       to somebody else), the buffer handed to placement_alloc,
 //          "fam":0..3   shape family of the coroutines: 0 bodies with local arrays of 16/256/1024 bytes, 1 the same
 //                       + 8 bytes (the other residue of the frame size mod 16), 2/3 the library's callback_await_coro
 //                       created through callback_await_alloc<Policy, future<int>&> with callbacks of those sizes,
@@ -31,6 +34,9 @@
 // steps:  Create(t,c) CreateB(t,c) Complete(t,f) New(t) Del(t) Store(t) Teardown
 //         Prepare CreateP(t,c,i)    stack_storage: a storage constructed and given its alloca block ahead of use
 //         CreateThrow(t,c)          the factory of the attached object throws (always with the plain bodies)
+//         DtorBegin(t,f) .. DtorEnd(t,f)   frame f completes; the destructor of its attached object executes the steps in
+//                                   between (creations and completions of other frames), the state is compared inside
+//                                   the destructor (DtorBegin, every step in between) and after the completion (DtorEnd)
 //         NewObj MoveCtor MoveAssign(s,d) Drop(o)      a second storage object; construction / assignment by move
 //         OwnerResize(k) OwnerShrink OwnerClear OwnerMoveOut OwnerSwap(k)   what the owner of the buffer does to it
 // projection: {"bad":[...harness-side check failures, expected empty...],"busy","dels","fr":[{..}],
@@ -38,8 +44,11 @@
 //              "prep":[size each prepared stack storage asked for],"nthrow":factory exceptions that reached the creator}
 // -DSTORAGE_NO_STACK_PRIVATE: build without the probes of stack_storage's private members (when their
 // representation changed): the cross-check of its bookkeeping against the harness's own is dropped
-//   fr[i]: c, o (storage object), live, where, slot, blk, tr (what the base keeps behind the frame), eo (attached
-//          object), asz (size the base's alloc got), dz ("live" | "same" | "alloc:<a>/dealloc:<d>"), ct, dt
+//   fr[i]: c, o (storage object), live, where, slot, blk (size of the area the frame lies in: heap block, elements of
+//          the buffer's vector, alloca block, placement buffer), at (address of the frame relative to the first byte of
+//          that area), tr (what the base keeps behind the frame), eo (attached object: "obj", "dying" while its
+//          destructor runs), asz (size the base's alloc got), dz ("live" | "same" | "alloc:<a>/dealloc:<d>": set as
+//          soon as the base policy's dealloc has been called), ct, dt
 // Memory a policy returns that cannot hold the frame (null, released, too small) is recorded in `bad` and the
 // frame is put into memory of the harness instead, so that the process lives to report it.
 //
@@ -85,6 +94,9 @@ constexpr int NSLOT = 8;
 constexpr std::size_t SLOTSZ = 4096;
 alignas(64) static unsigned char mem[NSLOT * SLOTSZ];
 static std::size_t req[NSLOT];   // 0 = free, otherwise requested size
+static std::size_t lead[NSLOT];  // the block begins that many bytes behind the first byte of its slot (the buffer's vector
+                                 // at an address that is no multiple of 16); the bytes in front are guarded like the tail
+static std::size_t want_lead = 0;   // lead of the next block taken (set by the allocator of the buffer's vector)
 static long news = 0, dels = 0, dblfree = 0, overrun = 0, badptr = 0, exhausted = 0;
 static bool alloc_marks = false;           // operator new/delete calls are scheduling points
 static thread_local int lib_depth = 0;     // >0: inside a library call
@@ -99,25 +111,31 @@ inline int slot_of(const void *p) {
     return (int) ((c - mem) / SLOTSZ) + 1;
 }
 inline unsigned char *base(int s) { return mem + (std::size_t) (s - 1) * SLOTSZ; }
+inline unsigned char *start(int s) { return base(s) + lead[s - 1]; }      // first byte of the block in slot s
 inline void note(char c) { if (nevents < 63) events[nevents++] = c; }
 
 inline void *take(std::size_t sz) {
     if (!poisoned_init) { poisoned_init = true; ARENA_POISON(mem, sizeof(mem)); }
     if (sz == 0) sz = 1;
+    std::size_t ld = want_lead;
+    want_lead = 0;
     int s = 0;
     for (int i = 0; i < NSLOT; i++) if (req[i] == 0) { s = i + 1; break; }
-    if (s == 0 || sz > SLOTSZ) {
+    if (s == 0 || ld + sz > SLOTSZ) {
         exhausted++;
         void *p = malloc(sz);
         if (!p) throw std::bad_alloc();
         return p;
     }
-    unsigned char *p = base(s);
-    ARENA_UNPOISON(p, SLOTSZ);
+    unsigned char *b = base(s), *p = b + ld;
+    ARENA_UNPOISON(b, SLOTSZ);
+    memset(b, 0xA5, ld);
     memset(p, 0xCD, sz);
-    memset(p + sz, 0xA5, SLOTSZ - sz);
-    ARENA_POISON(p + sz, SLOTSZ - sz);
+    memset(p + sz, 0xA5, SLOTSZ - ld - sz);
+    ARENA_POISON(b, ld);
+    ARENA_POISON(p + sz, SLOTSZ - ld - sz);
     req[s - 1] = sz;
+    lead[s - 1] = ld;
     news++;
     alloc_stats::g_news.fetch_add(1, std::memory_order_relaxed);
     note('N');
@@ -129,12 +147,12 @@ inline void release(void *ptr) {
     dels++;
     alloc_stats::g_deletes.fetch_add(1, std::memory_order_relaxed);
     note('D');
-    if (ptr != base(s)) { badptr++; return; }
-    if (req[s - 1] == 0) { dblfree++; return; }
+    if (req[s - 1] == 0) { if (ptr == base(s) || ptr == start(s)) dblfree++; else badptr++; return; }
+    if (ptr != start(s)) { badptr++; return; }
     unsigned char *p = base(s);
-    std::size_t sz = req[s - 1];
+    std::size_t sz = req[s - 1], ld = lead[s - 1];
     ARENA_UNPOISON(p, SLOTSZ);
-    for (std::size_t i = sz; i < SLOTSZ; i++) if (p[i] != 0xA5) { overrun++; break; }
+    for (std::size_t i = 0; i < SLOTSZ; i++) if ((i < ld || i >= ld + sz) && p[i] != 0xA5) { overrun++; break; }
     memset(p, 0xDD, SLOTSZ);
     ARENA_POISON(p, SLOTSZ);
     req[s - 1] = 0;
@@ -142,6 +160,8 @@ inline void release(void *ptr) {
 
 inline void reset() {
     for (int i = 0; i < NSLOT; i++) if (req[i]) { ARENA_UNPOISON(base(i + 1), SLOTSZ); memset(base(i + 1), 0xDD, SLOTSZ); ARENA_POISON(base(i + 1), SLOTSZ); req[i] = 0; }
+    for (int i = 0; i < NSLOT; i++) lead[i] = 0;
+    want_lead = 0;
     news = dels = dblfree = overrun = badptr = exhausted = 0;
     nevents = 0;
 }
@@ -187,8 +207,10 @@ struct TraceHook {
     // returns nullptr, or memory of the harness to be used INSTEAD of p when p is not usable memory for sz bytes
     // (null, released, too small): the fault is on record, the process stays alive to report it
     void *(*on_alloc)(void *ctx, void *p, std::size_t sz) = nullptr;
-    // returns the pointer to forward to the policy's dealloc, nullptr: do not forward (frame had been relocated)
-    void *(*on_dealloc)(void *ctx, void *p, std::size_t sz) = nullptr;
+    // returns the pointer to forward to the policy's dealloc, nullptr: do not forward (frame had been relocated);
+    // *tok: handed to on_dealloc_done when the policy's dealloc has returned
+    void *(*on_dealloc)(void *ctx, void *p, std::size_t sz, void **tok) = nullptr;
+    void (*on_dealloc_done)(void *ctx, void *tok) = nullptr;
 };
 static TraceHook g_hook;
 static const bool g_trace = getenv("STORAGE_TRACE") != nullptr;
@@ -204,8 +226,10 @@ struct traced : S {
     }
     static void dealloc(void *p, std::size_t sz) {
         if (g_trace) fprintf(stderr, "  dealloc(slot %d, %zu)\n", arena::slot_of(p), sz);
-        if (g_hook.ctx) { p = g_hook.on_dealloc(g_hook.ctx, p, sz); if (!p) return; }
-        S::dealloc(p, sz);
+        void *hctx = g_hook.ctx, *tok = nullptr;
+        if (hctx) p = g_hook.on_dealloc(hctx, p, sz, &tok);
+        if (p) S::dealloc(p, sz);
+        if (hctx && hctx == g_hook.ctx) g_hook.on_dealloc_done(hctx, tok);
     }
 };
 
@@ -239,23 +263,31 @@ struct rec : B {
 namespace ereg {
 struct Ev { bool ctor; const void *addr; };
 static Ev ev[256];
-static long n = 0, bad_dtor = 0;
-struct Obj { const void *addr; bool alive; };
+static long n = 0, bad_dtor = 0, over_alive = 0, damaged = 0;
+struct Obj { const void *addr; bool alive; bool dying; };
 static Obj obj[64];
 static int nobj = 0;
+// the destructor of an attached object is code of the user: the scenario may have it execute steps
+static void *dtor_ctx = nullptr;
+static void (*on_dtor)(void *ctx, const void *addr) = nullptr;
+inline bool alive(const void *a) { for (int i = 0; i < nobj; i++) if (obj[i].alive && obj[i].addr == a) return true; return false; }
+inline bool dying(const void *a) { for (int i = 0; i < nobj; i++) if (obj[i].alive && obj[i].addr == a) return obj[i].dying; return false; }
 inline void ctor(const void *a) {
     if (n < 256) ev[n++] = Ev{true, a};
-    for (int i = 0; i < nobj; i++) if (!obj[i].alive) { obj[i] = Obj{a, true}; return; }
-    if (nobj < 64) obj[nobj++] = Obj{a, true};
+    if (alive(a)) over_alive++;        // constructed on top of an object that is alive (or still being destroyed)
+    for (int i = 0; i < nobj; i++) if (!obj[i].alive) { obj[i] = Obj{a, true, false}; return; }
+    if (nobj < 64) obj[nobj++] = Obj{a, true, false};
 }
-inline void dtor(const void *a) {
+inline void dtor_begin(const void *a) {
+    for (int i = 0; i < nobj; i++) if (obj[i].alive && obj[i].addr == a && !obj[i].dying) { obj[i].dying = true; return; }
+}
+inline void dtor(const void *a) {      // the destructor has done its work
     if (n < 256) ev[n++] = Ev{false, a};
     for (int i = 0; i < nobj; i++) if (obj[i].alive && obj[i].addr == a) { obj[i].alive = false; return; }
     bad_dtor++;    // destroyed twice, or something that was never constructed
 }
-inline bool alive(const void *a) { for (int i = 0; i < nobj; i++) if (obj[i].alive && obj[i].addr == a) return true; return false; }
 inline int nalive() { int k = 0; for (int i = 0; i < nobj; i++) if (obj[i].alive) k++; return k; }
-inline void reset() { n = 0; bad_dtor = 0; nobj = 0; }
+inline void reset() { n = 0; bad_dtor = over_alive = damaged = 0; nobj = 0; }
 }  // namespace ereg
 
 struct Extra {
@@ -263,7 +295,14 @@ struct Extra {
     std::uint32_t magic, serial, touch, pad;
     explicit Extra(std::uint32_t s) : magic(MAGIC), serial(s), touch(0), pad(0) { ereg::ctor(this); }
     Extra(const Extra &o) : magic(o.magic), serial(o.serial), touch(o.touch), pad(0) { ereg::ctor(this); }
-    ~Extra() { ereg::dtor(this); magic = 0xDEADDEADu; }
+    ~Extra() {
+        ereg::dtor_begin(this);
+        std::uint32_t m = magic, s = serial, t = touch;
+        if (ereg::on_dtor) ereg::on_dtor(ereg::dtor_ctx, this);       // the scripted part of the destructor
+        if (magic != m || serial != s || touch != t) ereg::damaged++; // the object is this frame's until it is gone
+        ereg::dtor(this);
+        magic = 0xDEADDEADu;
+    }
 };
 static_assert(sizeof(Extra) == 16, "ExtraSz of Storage.tla");
 static_assert(sizeof(void *) == 8, "BaseTrailer of Storage.tla");
@@ -276,6 +315,7 @@ struct FrameRec {
     unsigned char *ptr = nullptr;
     std::size_t sz = 0;
     bool live = false, dead = false;
+    bool dying = false;               // extra: promise_extra_storage::dealloc is in progress (the frame stays live until it returns)
     unsigned char *buf = nullptr;     // the local array inside the frame
     std::size_t n = 0;
     bool started = false, finished = false, canary_ok = true;
@@ -449,7 +489,25 @@ static void calibrate() {
 // policies
 // ---------------------------------------------------------------------------------------------
 enum class Pol { def, reusable, mtsafe, stack, placement, buffer };
-using Buf = std::vector<std::uint64_t>;
+// The caller's buffer: a vector whose allocator places the elements g_buf_off bytes behind a 16-byte boundary (header
+// "boff"; what vectors with an allocator of the user, pmr vectors in an arena, in-object buffers do) and gives the vector
+// exactly the bytes it asks for: the bytes in front of and behind them are not the buffer's.
+static std::size_t g_buf_off = 0;
+template <typename T>
+struct OffAlloc {
+    using value_type = T;
+    OffAlloc() = default;
+    template <typename U> OffAlloc(const OffAlloc<U> &) {}
+    T *allocate(std::size_t n) {
+        if (arena::attributed()) arena::want_lead = g_buf_off;
+        return static_cast<T *>(::operator new(n * sizeof(T)));
+    }
+    void deallocate(T *p, std::size_t) { ::operator delete(static_cast<void *>(p)); }
+    template <typename U> bool operator==(const OffAlloc<U> &) const { return true; }
+};
+// items of 16 bytes: half of the frame sizes (those that are 8 mod 16) need the rounding up to whole items
+struct BufItem { std::uint64_t w[2]; };
+using Buf = std::vector<BufItem, OffAlloc<BufItem>>;
 
 // promise_extra_storage<T, Base> default-constructs its base: the policies that need a constructor argument are
 // given one by a derived class of the harness (what a user of the library would write)
@@ -521,6 +579,7 @@ struct World {
     unsigned char *cur_abuf = nullptr;          // stack: buffer of the creation in progress
     std::size_t cur_asize = 0;
     unsigned char *place = nullptr;             // placement: the caller's buffer
+    unsigned char *place_raw = nullptr;         // ... and the malloc block it lies in
     std::size_t place_size = 0;
     std::unique_ptr<Buf> buf;                   // buffer: the caller's vector
     std::uint32_t next_serial = 1;
@@ -542,7 +601,7 @@ struct World {
     bool mt = false;
     Cmd mailbox[2];
 
-    ~World() { free(place); }
+    ~World() { free(place_raw); }
 
     void note(const std::string &s) { alloc_pause np; notes.push_back(s); }
 
@@ -555,6 +614,12 @@ struct World {
     static std::size_t real_size(long a) { return a <= 0 ? 0 : F[a / 100] + (std::size_t) (a % 100); }
     static std::size_t items_of(std::size_t bytes) { return (bytes + sizeof(Buf::value_type) - 1) / sizeof(Buf::value_type); }
     static constexpr std::size_t item = sizeof(Buf::value_type);
+    // buffer: the vector holds whole items -- n items stand for the abstract size of the request that needs exactly n
+    static long abs_vec(std::size_t bytes) {
+        if (P == Pol::buffer && bytes && bytes % item == 0)
+            for (int c = 3; c >= 1; c--) if (bytes / item == items_of(F[c] + trailer)) return 100 * c + (long) trailer;
+        return abs_size(bytes);
+    }
 
     // ---- storage construction ----
     std::unique_ptr<A> make_storage() {
@@ -590,9 +655,11 @@ struct World {
     // is [p, p+n) memory the frame can physically be put in?
     bool usable_memory(const unsigned char *p, std::size_t n) const {
         if (!p) return false;
-        if (int slot = arena::slot_of(p)) return p == arena::base(slot) && arena::req[slot - 1] && n <= arena::req[slot - 1];
+        // (anywhere inside an allocated block, the alloca block, the placement buffer: where exactly is reported as `at`)
+        if (int slot = arena::slot_of(p))
+            return arena::req[slot - 1] && p >= arena::start(slot) && p + n <= arena::start(slot) + arena::req[slot - 1];
         if (P == Pol::stack && cur_abuf && p >= cur_abuf && p + n <= cur_abuf + cur_asize) return true;
-        if (P == Pol::placement && p == place && n <= place_size) return true;
+        if (P == Pol::placement && place && p >= place && p + n <= place + place_size) return true;
         return false;
     }
     static void *on_alloc(void *ctx, void *p, std::size_t sz) {
@@ -625,20 +692,36 @@ struct World {
         }
         return nullptr;
     }
-    static void *on_dealloc(void *ctx, void *p, std::size_t sz) {
+    static void *on_dealloc(void *ctx, void *p, std::size_t sz, void **tok) {
         World &w = *static_cast<World *>(ctx);
         for (int i = w.nframes - 1; i >= 0; i--) {
             FrameRec &r = w.frames[i];
-            if (r.live && r.ptr == p) {
+            if (r.live && !r.dying && r.ptr == p) {
                 if (r.sz != sz) w.note("dealloc-size:" + std::to_string(r.id));
-                r.live = false;
-                r.dead = true;
-                if (!EX) { r.bdsz = sz; r.bdealloc = true; }
+                if (EX) {
+                    // promise_extra_storage::dealloc begins: the attached object is destroyed (code of the user, may
+                    // execute steps of the scenario), then the block goes back to the base policy.  The frame's memory is
+                    // the frame's until this dealloc returns.
+                    r.dying = true;
+                    *tok = &r;
+                } else {
+                    r.live = false;
+                    r.dead = true;
+                    r.bdsz = sz;
+                    r.bdealloc = true;
+                }
                 return r.orig && !r.base_reloc ? nullptr : p;
             }
         }
         w.note("dealloc-unknown");
         return p;
+    }
+    static void on_dealloc_done(void *, void *tok) {
+        if (!tok) return;
+        FrameRec &r = *static_cast<FrameRec *>(tok);
+        r.dying = false;
+        r.live = false;
+        r.dead = true;
     }
     // the base policy under the attached-object layer
     static void *on_base_alloc(void *ctx, void *p, std::size_t sz) {
@@ -657,7 +740,7 @@ struct World {
         World &w = *static_cast<World *>(ctx);
         for (int i = w.nframes - 1; i >= 0; i--) {
             FrameRec &r = w.frames[i];
-            if (r.dead && !r.bdealloc && r.ptr == p) {
+            if (r.dying && !r.bdealloc && r.ptr == p) {
                 r.bdsz = sz;
                 r.bdealloc = true;
                 sz = r.basz;
@@ -861,12 +944,16 @@ struct World {
             std::size_t c = stor[o]->capacity();
             if (c != (*stor[o]).*RProbe::cap_mp()) return -1;
             return abs_size(c);
-        } else if constexpr (P == Pol::buffer) return abs_size(buf->size() * item);
+        } else if constexpr (P == Pol::buffer) return abs_vec(buf->size() * item);
         else return 0;
     }
-    long block_abs(int slot) const { return abs_size(arena::req[slot - 1]); }
+    long block_abs(int slot) const { return abs_vec(arena::req[slot - 1]); }    // (buffer: every block is the vector's)
+    // does p point into the block of the buffer's vector?
     bool is_buffer_block(const unsigned char *p) const {
-        return P == Pol::buffer && buf && buf->capacity() && p == reinterpret_cast<const unsigned char *>(buf->data());
+        if (P != Pol::buffer || !buf || !buf->capacity()) return false;
+        auto d = reinterpret_cast<const unsigned char *>(buf->data());
+        int slot = arena::slot_of(d);
+        return slot && slot == arena::slot_of(p);
     }
 
     std::string pend_of(int t) {
@@ -914,7 +1001,7 @@ struct World {
             f.set("dt", dt);
             if (!r.live) {
                 f.set("c", 0); f.set("o", 0); f.set("live", false); f.set("where", "gone"); f.set("slot", 0); f.set("blk", 0);
-                f.set("tr", "gone"); f.set("eo", "gone"); f.set("asz", 0);
+                f.set("tr", "gone"); f.set("eo", "gone"); f.set("asz", 0); f.set("at", 0);
                 // the base policy's dealloc was called with the size its alloc was called with
                 f.set("dz", !r.bdealloc ? std::string("never") : r.bdsz == r.basz ? std::string("same")
                             : "alloc:" + std::to_string(r.basz) + "/dealloc:" + std::to_string(r.bdsz));
@@ -926,11 +1013,15 @@ struct World {
             f.set("o", r.o);
             f.set("live", true);
             f.set("asz", abs_size(r.basz));
-            f.set("dz", "live");
+            // the block is the frame's until the frame is gone: the base policy's dealloc has not been called for it
+            f.set("dz", !r.bdealloc ? std::string("live") : r.bdsz == r.basz ? std::string("same")
+                        : "alloc:" + std::to_string(r.basz) + "/dealloc:" + std::to_string(r.bdsz));
             std::size_t foot = r.sz + trailer;       // the frame plus everything the policy keeps behind it
             bool fits = false;
             int slot = arena::slot_of(r.ptr);
             std::string where = "unknown";
+            // the area the policy owns for the frame [area, area + avail) and where in it the frame begins
+            long at = 0;
             if (r.orig) {
                 where = "relocated";
                 f.set("slot", 0);
@@ -940,22 +1031,26 @@ struct World {
                 f.set("slot", slot);
                 std::size_t avail = arena::req[slot - 1];
                 if (is_buffer_block(r.ptr)) avail = std::min(avail, buf->size() * item);    // what the vector holds
-                f.set("blk", abs_size(avail));
-                fits = r.ptr == arena::base(slot) && foot <= avail;
+                f.set("blk", abs_vec(avail));
+                at = (long) (r.ptr - arena::start(slot));
+                fits = arena::req[slot - 1] && at >= 0 && (std::size_t) at + foot <= avail;
             } else if (P == Pol::stack && r.abuf && r.ptr >= r.abuf && r.ptr < r.abuf + std::max<std::size_t>(r.asize, 1)) {
                 where = "stack";
                 f.set("slot", r.prep);
                 f.set("blk", abs_size(r.asize));
+                at = (long) (r.ptr - r.abuf);
                 fits = r.ptr + foot <= r.abuf + r.asize;
-            } else if (P == Pol::placement && r.ptr == place) {
+            } else if (P == Pol::placement && place && r.ptr >= place && r.ptr < place + std::max<std::size_t>(place_size, 1)) {
                 where = "place";
                 f.set("slot", 0);
                 f.set("blk", abs_size(place_size));
-                fits = foot <= place_size;
+                at = (long) (r.ptr - place);
+                fits = (std::size_t) at + foot <= place_size;
             } else {
                 f.set("slot", 0);
                 f.set("blk", 0);
             }
+            f.set("at", at);
             f.set("where", where);
             wl.push(where);
             if (!fits && !r.orig) bad.push("memory-too-small:" + std::to_string(r.id));
@@ -972,14 +1067,16 @@ struct World {
                 }
                 if constexpr (EX) {
                     auto *e = reinterpret_cast<Extra *>(r.ptr + r.sz);
-                    eo = ereg::alive(e) && e->magic == Extra::MAGIC ? "obj" : "noobj";
+                    eo = ereg::alive(e) && e->magic == Extra::MAGIC ? (ereg::dying(e) ? "dying" : "obj") : "noobj";
                 }
             } else tr = eo = "unreadable";
             f.set("tr", tr);
             f.set("eo", eo);
             fl.push(f);
             // canaries of every live frame, every step
-            if (r.started) {
+            if (r.dying) {
+                // the coroutine's frame has been destructed, what is left in the block is the attached object
+            } else if (r.started) {
                 bool ok = r.buf >= r.ptr && r.buf + r.n <= r.ptr + r.sz;
                 if (ok && (fits || r.orig)) for (std::size_t k = 0; k < r.n; k++) ok &= r.buf[k] == pat(r.id, k);
                 if (!ok) bad.push("canary:" + std::to_string(r.id));
@@ -998,6 +1095,8 @@ struct World {
             for (int i = 0; i < nframes; i++) if (frames[i].live) live++;
             if (ereg::nalive() != live) bad.push("extra-objects-alive:" + std::to_string(ereg::nalive()) + "/frames:" + std::to_string(live));
             if (ereg::bad_dtor) bad.push("extra-destroyed-without-being-alive");
+            if (ereg::over_alive) bad.push("extra-constructed-over-an-object-that-is-alive");
+            if (ereg::damaged) bad.push("extra-overwritten-during-its-destructor");
         }
         m.set("fr", fl);
         // the storage objects and their bookkeeping
@@ -1006,7 +1105,7 @@ struct World {
             J x = J::map();
             x.set("st", ost[o]);
             const unsigned char *pb = policy_block(o);
-            x.set("ptr", pb ? (arena::slot_of(pb) && pb == arena::base(arena::slot_of(pb)) ? arena::slot_of(pb) : -1) : 0);
+            x.set("ptr", pb ? (arena::slot_of(pb) && pb == arena::start(arena::slot_of(pb)) ? arena::slot_of(pb) : -1) : 0);
             x.set("cap", policy_cap(o));
             long inv = 0;
             bool fac = ost[o] == "live";
@@ -1063,6 +1162,182 @@ struct World {
 
     static int tid_of(const std::string &s) { return s.size() >= 2 && s[0] == 't' ? atoi(s.c_str() + 1) - 1 : 0; }
 
+    // ---- one step of the scenario (also called from inside the destructor of an attached object) ----
+    const Scenario *cur_sc = nullptr;
+    Reporter *cur_rep = nullptr;
+    std::size_t pos = 0;                 // next step
+    bool stop = false;
+    int nthr = 1;
+    int armed = 0;                       // frame whose attached object's destructor executes the steps up to DtorEnd
+    std::size_t armed_k = 0;
+    bool dtor_entered = false;
+    static constexpr std::size_t STACK_POOL = 16 * (GUARD + 2048);
+    unsigned char *pool_low = nullptr, *pool_top = nullptr;
+    unsigned char *stack_take(std::size_t n) {
+        std::size_t a = (n + 15) & ~std::size_t(15);
+        if (!pool_top || (std::size_t) (pool_top - pool_low) < a) return nullptr;
+        pool_top -= a;
+        return pool_top;
+    }
+
+    // ~Extra of the frame that is completing (DtorBegin): compare the state as it is INSIDE the destructor, then execute the
+    // steps of the scenario up to DtorEnd -- what a destructor that starts / finishes other coroutines does
+    static void on_extra_dtor(void *ctx, const void *addr) {
+        World &w = *static_cast<World *>(ctx);
+        if (!w.armed || w.dtor_entered) return;
+        FrameRec &r = w.frames[w.armed - 1];
+        if (addr != r.ptr + r.sz) return;           // another object (a temporary of the factory)
+        w.dtor_entered = true;
+        int depth = arena::lib_depth;               // the destructor is code of the user, not of the library
+        arena::lib_depth = 0;
+        if (!w.cur_rep->check(w.armed_k, w.project(w.nthr))) w.stop = true;
+        while (!w.stop && w.pos < w.cur_sc->steps.size() && w.cur_sc->steps[w.pos].name != "DtorEnd") w.exec_step(w.pos++);
+        arena::lib_depth = depth;
+    }
+
+    void exec_step(std::size_t k) {
+        const Step &st = cur_sc->steps[k];
+        int t = tid_of(st.sarg(0));
+        if (st.name == "Prepare" || st.name == "CreateP") {
+            if constexpr (P != Pol::stack) { cur_rep->error(k, "prepared storages are stack_storage's"); { stop = true; return; } }
+            else if (st.name == "Prepare") {
+                // the storage is constructed from the shared state and given the block it asks for, now; used later
+                A &sst = new_stack_storage();
+                cocls::stack_storage &base = sst;
+                unsigned char *guard = stack_take(GUARD);
+                if (!guard) { cur_rep->error(k, "stack area exhausted"); stop = true; return; }
+                memset(guard, 0xE7, GUARD);
+                std::size_t asz = base;
+                unsigned char *ab = stack_take(asz);
+                if (!ab) { cur_rep->error(k, "stack area exhausted"); stop = true; return; }
+                memset(ab, 0x5A, asz);
+                base = ab;
+                alloc_pause np;
+                preps.push_back(PrepRec{&sst, ab, asz, guard});
+            } else {
+                int c = st.iarg(1), i = st.iarg(2);
+                if (c < 1 || c > 3 || i < 1 || i > (int) preps.size()) { cur_rep->error(k, "bad arguments"); { stop = true; return; } }
+                PrepRec &pp = preps[i - 1];
+                FrameRef &ref = new_ref(0, c, 1);
+                cur_abuf = pp.ab;
+                cur_asize = pp.asz;
+                {
+                    lib_scope ls;
+                    create_on(*pp.st, ref, c);
+                }
+                if (ref.r) { ref.r->abuf = pp.ab; ref.r->asize = pp.asz; ref.r->guard = pp.guard; ref.r->prep = i; }
+            }
+        } else if (st.name == "Create" || st.name == "CreateB" || st.name == "CreateThrow") {
+            int c = st.iarg(1);
+            int o = st.name == "CreateB" ? 2 : 1;
+            if (c < 1 || c > 3 || t < 0 || t >= nthr || (o == 2 && !movable)) { cur_rep->error(k, "bad arguments"); { stop = true; return; } }
+            if (st.name == "CreateThrow" && (!EX || mt)) { cur_rep->error(k, "no factory"); { stop = true; return; } }
+            if (mt) {
+                if (pend_of(t) != "idle") { cur_rep->diverge(k, "thread is not idle: " + pend_of(t) + " got=" + project(nthr).dump()); { stop = true; return; } }
+                mailbox[t] = Cmd{Cmd::create, c, 0};
+                sched.step(t);                    // thread-local: up to the first operation on shared state
+                if (pend_of(t) != "xchg") {
+                    cur_rep->diverge(k, "creation does not start with the _busy exchange: thread parked at " + pend_of(t) + " got=" + project(nthr).dump());
+                    { stop = true; return; }
+                }
+                sched.step(t);
+            } else if constexpr (P == Pol::stack) {
+                // as scheduler.h:241-255 does: a storage object per call, buffer from alloca
+                bool thr = st.name == "CreateThrow";
+                FrameRef &ref = new_ref(0, c, 1);
+                A &sst = new_stack_storage();
+                cocls::stack_storage &base = sst;
+                unsigned char *guard = stack_take(GUARD);
+                if (!guard) { cur_rep->error(k, "stack area exhausted"); stop = true; return; }
+                memset(guard, 0xE7, GUARD);
+                std::size_t asz = base;                                  // operator std::size_t
+                unsigned char *ab = stack_take(asz);
+                if (!ab) { cur_rep->error(k, "stack area exhausted"); stop = true; return; }
+                memset(ab, 0x5A, asz);
+                base = ab;                                               // stack_storage::operator=(void *)
+                cur_abuf = ab;
+                cur_asize = asz;
+                if (thr) create_throw_on(sst, ref, c);
+                else {
+                    lib_scope ls;
+                    bool done = false;
+                    if constexpr (copyable) if (use_copy && (ncreate & 1)) { A cp(sst); create_on(cp, ref, c); done = true; }   // a copy refers to the same buffer
+                    if (!done) create_on(sst, ref, c);
+                }
+                if (ref.r) { ref.r->abuf = ab; ref.r->asize = asz; ref.r->guard = guard; }
+#ifndef STORAGE_NO_STACK_PRIVATE
+                if (asz != sst.*SProbe::asize_mp() || ab != sst.*SProbe::aptr_mp()) note("stack-storage-bookkeeping");
+#endif
+            } else {
+                if (!stor[o - 1]) { cur_rep->diverge(k, "storage object does not exist got=" + project(nthr).dump()); { stop = true; return; } }
+                if (st.name == "CreateThrow") { FrameRef &ref = new_ref(0, c, o); create_throw_on(*stor[o - 1], ref, c); }
+                else do_create(0, c, o);
+            }
+        } else if (st.name == "DtorBegin") {
+            // frame f completes; the destructor of its attached object executes the steps up to DtorEnd(t,f) (on_extra_dtor):
+            // the state is compared inside the destructor and, here, after the completion has returned
+            int f = st.iarg(1);
+            if (!EX || mt) { cur_rep->error(k, "no attached object"); stop = true; return; }
+            if (f < 1 || f > nframes || !frames[f - 1].live || frames[f - 1].dying || armed) {
+                cur_rep->diverge(k, "frame to complete is not live in the implementation got=" + project(nthr).dump());
+                stop = true;
+                return;
+            }
+            armed = f;
+            armed_k = k;
+            dtor_entered = false;
+            do_complete(0, f);
+            armed = 0;
+            if (stop) return;
+            if (!dtor_entered) {
+                cur_rep->diverge(k, "the destructor of the attached object did not run during the completion of the frame got=" + project(nthr).dump());
+                stop = true;
+                return;
+            }
+            if (pos < cur_sc->steps.size()) {
+                const Step &e = cur_sc->steps[pos];
+                if (e.name != "DtorEnd" || e.iarg(1) != f) { cur_rep->error(pos, "DtorEnd of the frame expected"); stop = true; return; }
+                std::size_t k2 = pos++;
+                if (!cur_rep->check(k2, project(nthr))) stop = true;
+            }
+            return;
+        } else if (st.name == "DtorEnd") {
+            cur_rep->error(k, "DtorEnd without DtorBegin");
+            stop = true;
+            return;
+        } else if (st.name == "Complete") {
+            int f = st.iarg(1);
+            if (f < 1 || f > nframes || !frames[f - 1].live || t < 0 || t >= nthr) {
+                cur_rep->diverge(k, "frame to complete is not live in the implementation got=" + project(nthr).dump());
+                { stop = true; return; }
+            }
+            if (mt) {
+                if (pend_of(t) != "idle") { cur_rep->diverge(k, "thread is not idle: " + pend_of(t) + " got=" + project(nthr).dump()); { stop = true; return; } }
+                mailbox[t] = Cmd{Cmd::complete, 0, f};
+                sched.step(t);
+            } else do_complete(0, f);
+        } else if (st.name == "New" || st.name == "Del" || st.name == "Store") {
+            std::string want = st.name == "New" ? "new" : st.name == "Del" ? "delete" : "store";
+            if (!mt || t < 0 || t >= nthr) { cur_rep->error(k, "fine-grain step in sequential mode"); { stop = true; return; } }
+            if (pend_of(t) != want) { cur_rep->diverge(k, "thread parked at " + pend_of(t) + ", expected " + want + " got=" + project(nthr).dump()); { stop = true; return; } }
+            sched.step(t);
+        } else if (st.name == "Teardown") {
+            if (mt) {
+                bool idle = pend_of(0) == "idle" && pend_of(1) == "idle";
+                if (!idle) { cur_rep->diverge(k, "threads not idle at teardown got=" + project(nthr).dump()); { stop = true; return; } }
+                for (int i = 0; i < 2; i++) mailbox[i] = Cmd{Cmd::quit, 0, 0};
+                if (!sched.drain()) { cur_rep->diverge(k, "threads do not finish"); { stop = true; return; } }
+            }
+            do_teardown();
+        } else if (!mt && (do_move(st) || do_owner(st))) {
+            // done
+        } else {
+            cur_rep->error(k, "unknown action");
+            { stop = true; return; }
+        }
+        if (!cur_rep->check(k, project(nthr))) stop = true;
+    }
+
     // ---- scenario ----
     void run(const Scenario &sc, Reporter &rep) {
         calibrate();
@@ -1078,7 +1353,9 @@ struct World {
         use_copy = copyable && sc.hdr.at("copy").as_bool(false);
         if (fam < 0 || fam >= NFAM || (mt && fam >= 2) || (EX && fam != 0 && fam != 3)) { rep.error(0, "bad shape family"); return; }
         F = FF[fam];
-        for (auto &stp : sc.steps) if (stp.name == "CreateThrow") fam = 0;     // see create_throw_on
+        // (see create_throw_on; a coroutine of the callback families completed inside a destructor is only queued: the
+        // thread's coro_queue is busy with the completion that runs the destructor)
+        for (auto &stp : sc.steps) if (stp.name == "CreateThrow" || stp.name == "DtorBegin") fam = 0;
         F = FF[fam];
         if (fam >= 2) kill = "finish";
         warm_thread();
@@ -1088,10 +1365,15 @@ struct World {
         if constexpr (P == Pol::stack) { state = real_size(init); adapt::state = &state; }
         if constexpr (P == Pol::placement) {
             place_size = real_size(init);
-            place = static_cast<unsigned char *>(malloc(place_size ? place_size : 1));   // exact size: ASan guards its end
+            std::size_t off = (std::size_t) sc.hdr.at("boff").as_int(0);
+            if (off >= 16) { rep.error(0, "bad buffer offset"); return; }
+            place_raw = static_cast<unsigned char *>(malloc(off + (place_size ? place_size : 1)));   // exact size: ASan guards its end
+            place = place_raw + off;
             adapt::place = place;
         }
         if constexpr (P == Pol::buffer) {
+            g_buf_off = (std::size_t) sc.hdr.at("boff").as_int(0);
+            if (g_buf_off % alignof(Buf::value_type) || g_buf_off >= 16) { rep.error(0, "bad buffer offset"); return; }
             buf.reset(new Buf());
             adapt::buf = buf.get();
             lib_scope ls;
@@ -1101,7 +1383,7 @@ struct World {
         arena::nevents = 0;
         stor[0] = make_storage();
         if constexpr (copyable && P != Pol::stack) if (use_copy) { alloc_pause np; stor_copy.reset(new A(*stor[0])); }
-        g_hook = TraceHook{this, &on_alloc, &on_dealloc};
+        g_hook = TraceHook{this, &on_alloc, &on_dealloc, &on_dealloc_done};
         g_rec = EX ? RecHook{this, &on_base_alloc, &on_base_dealloc} : RecHook{};
         arena::alloc_marks = mt && grain == "alloc";
         if (mt) {
@@ -1109,113 +1391,23 @@ struct World {
             sched.install();
             for (int t = 0; t < 2; t++) sched.spawn([this, t] { thread_main(t); });
         }
-        bool stop = false;
-        for (std::size_t k = 0; k < sc.steps.size() && !stop; k++) {
-            const Step &st = sc.steps[k];
-            int t = tid_of(st.sarg(0));
-            if (st.name == "Prepare" || st.name == "CreateP") {
-                if constexpr (P != Pol::stack) { rep.error(k, "prepared storages are stack_storage's"); break; }
-                else if (st.name == "Prepare") {
-                    // the storage is constructed from the shared state and given the block it asks for, now; used later
-                    A &sst = new_stack_storage();
-                    cocls::stack_storage &base = sst;
-                    unsigned char *guard = static_cast<unsigned char *>(alloca(GUARD));
-                    memset(guard, 0xE7, GUARD);
-                    std::size_t asz = base;
-                    unsigned char *ab = static_cast<unsigned char *>(alloca(asz));
-                    memset(ab, 0x5A, asz);
-                    base = ab;
-                    alloc_pause np;
-                    preps.push_back(PrepRec{&sst, ab, asz, guard});
-                } else {
-                    int c = st.iarg(1), i = st.iarg(2);
-                    if (c < 1 || c > 3 || i < 1 || i > (int) preps.size()) { rep.error(k, "bad arguments"); break; }
-                    PrepRec &pp = preps[i - 1];
-                    FrameRef &ref = new_ref(0, c, 1);
-                    cur_abuf = pp.ab;
-                    cur_asize = pp.asz;
-                    {
-                        lib_scope ls;
-                        create_on(*pp.st, ref, c);
-                    }
-                    if (ref.r) { ref.r->abuf = pp.ab; ref.r->asize = pp.asz; ref.r->guard = pp.guard; ref.r->prep = i; }
-                }
-            } else if (st.name == "Create" || st.name == "CreateB" || st.name == "CreateThrow") {
-                int c = st.iarg(1);
-                int o = st.name == "CreateB" ? 2 : 1;
-                if (c < 1 || c > 3 || t < 0 || t >= nthreads || (o == 2 && !movable)) { rep.error(k, "bad arguments"); break; }
-                if (st.name == "CreateThrow" && (!EX || mt)) { rep.error(k, "no factory"); break; }
-                if (mt) {
-                    if (pend_of(t) != "idle") { rep.diverge(k, "thread is not idle: " + pend_of(t) + " got=" + project(nthreads).dump()); break; }
-                    mailbox[t] = Cmd{Cmd::create, c, 0};
-                    sched.step(t);                    // thread-local: up to the first operation on shared state
-                    if (pend_of(t) != "xchg") {
-                        rep.diverge(k, "creation does not start with the _busy exchange: thread parked at " + pend_of(t) + " got=" + project(nthreads).dump());
-                        break;
-                    }
-                    sched.step(t);
-                } else if constexpr (P == Pol::stack) {
-                    // as scheduler.h:241-255 does: a storage object per call, buffer from alloca
-                    bool thr = st.name == "CreateThrow";
-                    FrameRef &ref = new_ref(0, c, 1);
-                    A &sst = new_stack_storage();
-                    cocls::stack_storage &base = sst;
-                    unsigned char *guard = static_cast<unsigned char *>(alloca(GUARD));
-                    memset(guard, 0xE7, GUARD);
-                    std::size_t asz = base;                                  // operator std::size_t
-                    unsigned char *ab = static_cast<unsigned char *>(alloca(asz));
-                    memset(ab, 0x5A, asz);
-                    base = ab;                                               // stack_storage::operator=(void *)
-                    cur_abuf = ab;
-                    cur_asize = asz;
-                    if (thr) create_throw_on(sst, ref, c);
-                    else {
-                        lib_scope ls;
-                        bool done = false;
-                        if constexpr (copyable) if (use_copy && (ncreate & 1)) { A cp(sst); create_on(cp, ref, c); done = true; }   // a copy refers to the same buffer
-                        if (!done) create_on(sst, ref, c);
-                    }
-                    if (ref.r) { ref.r->abuf = ab; ref.r->asize = asz; ref.r->guard = guard; }
-#ifndef STORAGE_NO_STACK_PRIVATE
-                    if (asz != sst.*SProbe::asize_mp() || ab != sst.*SProbe::aptr_mp()) note("stack-storage-bookkeeping");
-#endif
-                } else {
-                    if (!stor[o - 1]) { rep.diverge(k, "storage object does not exist got=" + project(nthreads).dump()); break; }
-                    if (st.name == "CreateThrow") { FrameRef &ref = new_ref(0, c, o); create_throw_on(*stor[o - 1], ref, c); }
-                    else do_create(0, c, o);
-                }
-            } else if (st.name == "Complete") {
-                int f = st.iarg(1);
-                if (f < 1 || f > nframes || !frames[f - 1].live || t < 0 || t >= nthreads) {
-                    rep.diverge(k, "frame to complete is not live in the implementation got=" + project(nthreads).dump());
-                    break;
-                }
-                if (mt) {
-                    if (pend_of(t) != "idle") { rep.diverge(k, "thread is not idle: " + pend_of(t) + " got=" + project(nthreads).dump()); break; }
-                    mailbox[t] = Cmd{Cmd::complete, 0, f};
-                    sched.step(t);
-                } else do_complete(0, f);
-            } else if (st.name == "New" || st.name == "Del" || st.name == "Store") {
-                std::string want = st.name == "New" ? "new" : st.name == "Del" ? "delete" : "store";
-                if (!mt || t < 0 || t >= nthreads) { rep.error(k, "fine-grain step in sequential mode"); break; }
-                if (pend_of(t) != want) { rep.diverge(k, "thread parked at " + pend_of(t) + ", expected " + want + " got=" + project(nthreads).dump()); break; }
-                sched.step(t);
-            } else if (st.name == "Teardown") {
-                if (mt) {
-                    bool idle = pend_of(0) == "idle" && pend_of(1) == "idle";
-                    if (!idle) { rep.diverge(k, "threads not idle at teardown got=" + project(nthreads).dump()); break; }
-                    for (int i = 0; i < 2; i++) mailbox[i] = Cmd{Cmd::quit, 0, 0};
-                    if (!sched.drain()) { rep.diverge(k, "threads do not finish"); break; }
-                }
-                do_teardown();
-            } else if (!mt && (do_move(st) || do_owner(st))) {
-                // done
-            } else {
-                rep.error(k, "unknown action");
-                break;
-            }
-            if (!rep.check(k, project(nthreads))) stop = true;
+        cur_sc = &sc;
+        cur_rep = &rep;
+        nthr = nthreads;
+        stop = false;
+        armed = 0;
+        ereg::dtor_ctx = this;
+        ereg::on_dtor = EX ? &on_extra_dtor : nullptr;
+        if constexpr (P == Pol::stack) {
+            // the stack area of the scenario: every stack_storage gets its block (and the guard behind it) from here,
+            // downwards, like consecutive alloca calls -- also the ones created inside a destructor, whose frames may
+            // outlive the call they were created in
+            unsigned char *pool = static_cast<unsigned char *>(alloca(STACK_POOL));
+            pool_low = pool;
+            pool_top = pool + STACK_POOL;
         }
+        for (pos = 0; pos < sc.steps.size() && !stop;) exec_step(pos++);
+        ereg::on_dtor = nullptr;
         fflush(stdout);   // a divergence is on record even if the clean-up of a broken state crashes
         // ---- clean up whatever the scenario left, then: nothing may remain allocated ----
         bool drained = true;
